@@ -437,6 +437,38 @@ func (e *Exec) startCut(st *State, fr *Frame, h, prev *ssa.BasicBlock) {
 				writes[id][""] = nil
 			}
 		}
+		// an induction variable of constant stride d, |d| > 1, stays on its stride: (p - p0) mod |d| == 0
+		for i := range phis {
+			di, ok := deltas[i]
+			if !ok || nonConstDelta[i] || isZero(di) {
+				continue
+			}
+			abs := new(big.Int).Abs(di.SInt())
+			if abs.Cmp(big.NewInt(1)) <= 0 {
+				continue
+			}
+			key := fmt.Sprintf("stride%d", i)
+			if cellCand[key] {
+				continue
+			}
+			cellCand[key] = true
+			e0i, oki := entry[i].(*Term)
+			if !oki {
+				continue
+			}
+			i := i
+			cands = append(cands, &cand{desc: fmt.Sprintf("%s stays on its stride %s", phiName(phis[i]), di.SInt()), alive: true, eval: func(_ *State, v []Val) *Term {
+				iv, ok := v[i].(*Term)
+				if !ok {
+					return e.C.False()
+				}
+				if iv.S.IsBV() {
+					return e.C.Eq(e.C.URem(e.C.Sub(iv, e0i), e.C.BVConst(abs, iv.S.W)), e.C.BVConst(big.NewInt(0), iv.S.W))
+				}
+				return e.C.Eq(e.C.IMod(e.C.Sub(iv, e0i), e.C.IntConst(abs)), e.C.Inti(0))
+			}})
+			changed = true
+		}
 		// linear relations between induction variables with constant strides: dj*(pi-pi0) == di*(pj-pj0)
 		for i := range phis {
 			for j := range phis {
